@@ -323,8 +323,8 @@ func drawDlCase(t *rapid.T) dlCase {
 	// exactly one file may be affected by the corruption: no two files may share a leaf blob (tiny last
 	// leaves of random bytes do collide); bump the seed of the later file until they do not
 	for tries := 0; tries < 200; tries++ {
-		a, b := sharedLeaf(c)
-		if a < 0 {
+		_, b := sharedLeaf(c)
+		if b < 0 {
 			break
 		}
 		c.Others[b].Obj.Seed += 0x9E3779B97F4A7C15
